@@ -314,10 +314,121 @@ def rewrite_fns(text, log, ret_name='ret'):
     return ''.join(out)
 
 
+def _is_fat_arrow(toks, i):
+    """toks[i] is '=' immediately followed by '>' and not the tail of another operator"""
+    if not (toks[i].kind == 'punct' and toks[i].text == '=' and i + 1 < len(toks)
+            and toks[i + 1].kind == 'punct' and toks[i + 1].text == '>' and toks[i + 1].start == toks[i].end):
+        return False
+    if i > 0 and toks[i - 1].kind == 'punct' and toks[i - 1].end == toks[i].start and toks[i - 1].text in '<>=!+-*/%&|^':
+        return False
+    return True
+
+
+def split_or_guard_arms(text, log):
+    """R13: Verus rejects a match arm that has both an or-pattern and a guard.  `P1 | P2 if g => body` is rewritten to
+    `P1 if g => body, P2 if g => body` (same order, same guard, same body: the or-pattern alternatives bind the same names)."""
+    for _ in range(50):
+        toks = lex(text)
+        hit = None
+        for i, t in enumerate(toks):
+            if not (t.kind == 'ident' and t.text == 'if'):
+                continue
+            # forward: reach `=>` at depth 0 without meeting `{` or `;`
+            j = i + 1
+            arrow = None
+            while j < len(toks):
+                u = toks[j]
+                if u.kind == 'punct' and u.text in '([':
+                    j = match_close(toks, j) + 1
+                    continue
+                if u.kind == 'punct' and u.text in '{};,':
+                    break
+                if _is_fat_arrow(toks, j):
+                    arrow = j
+                    break
+                j += 1
+            if arrow is None:
+                continue
+            # backward: the pattern starts after the previous `,` `{` `}` at depth 0
+            k = i - 1
+            depth = 0
+            bars = []
+            ok = True
+            while k >= 0:
+                u = toks[k]
+                if u.kind == 'punct':
+                    if u.text in ')]':
+                        depth += 1
+                    elif u.text in '([':
+                        if depth == 0:
+                            ok = False
+                            break
+                        depth -= 1
+                    elif depth == 0 and u.text in ',{}':
+                        break
+                    elif depth == 0 and u.text == ';':
+                        ok = False
+                        break
+                    elif depth == 0 and u.text == '|':
+                        bars.append(k)
+                    elif depth == 0 and _is_fat_arrow(toks, k):
+                        ok = False
+                        break
+                k -= 1
+            if not ok or not bars or k < 0:
+                continue
+            pat_lo = k + 1
+            while not toks[pat_lo].code:
+                pat_lo += 1
+            # body
+            b = arrow + 2
+            while not toks[b].code:
+                b += 1
+            if toks[b].kind == 'punct' and toks[b].text == '{':
+                body_hi = match_close(toks, b)
+                e = body_hi + 1
+                while e < len(toks) and not toks[e].code:
+                    e += 1
+                end = e if (e < len(toks) and toks[e].text == ',') else body_hi
+            else:
+                e = b
+                while e < len(toks):
+                    u = toks[e]
+                    if u.kind == 'punct' and u.text in '([{':
+                        e = match_close(toks, e) + 1
+                        continue
+                    if u.kind == 'punct' and u.text in ',}':
+                        break
+                    e += 1
+                body_hi = e - 1
+                while not toks[body_hi].code:
+                    body_hi -= 1
+                end = e if toks[e].text == ',' else body_hi
+            hit = (pat_lo, sorted(bars), i, arrow, b, body_hi, end)
+            break
+        if hit is None:
+            return text
+        pat_lo, bars, i_if, arrow, b, body_hi, end = hit
+        cuts = [toks[pat_lo].start] + [toks[x].end for x in bars]
+        ends = [toks[x].start for x in bars] + [toks[i_if].start]
+        alts = [text[a:z].strip() for a, z in zip(cuts, ends)]
+        alts = [a for a in alts if a]
+        guard = text[toks[i_if].start:toks[arrow].start].strip()
+        body = text[toks[b].start:toks[body_hi].end]
+        indent = text[text.rfind('\n', 0, toks[pat_lo].start) + 1:toks[pat_lo].start]
+        indent = indent if indent.strip() == '' else ''
+        arms = (',\n' + indent).join('%s %s => %s' % (a, guard, body) for a in alts)
+        tail_comma = ',' if toks[end].text == ',' else ''
+        text = text[:toks[pat_lo].start] + arms + tail_comma + text[toks[end].end:]
+        log['R13.or_pattern_guard'] = log.get('R13.or_pattern_guard', 0) + 1
+    return text
+
+
 def normalize_item(text, log):
     toks = strip_attrs(lex(text))
     text = ''.join(t.text for t in toks)
     text = apply_idioms(text, log)
+    text = split_or_guard_arms(text, log)
     text = rewrite_fns(text, log)
     return text
 
